@@ -19,6 +19,7 @@ Per message kind K and stack S:
 -/
 import Gotlcp.Lemmas.Codec
 import Gotlcp.Lemmas.CodecDtlcp
+import Gotlcp.Lemmas.CodecHello
 import Gotlcp.Model.CodecParams
 
 set_option linter.unusedSimpArgs false
@@ -474,5 +475,61 @@ theorem C14_reencode_helloVerifyRequest_dtlcp (b : Bytes) (h : DHdr) (m : HelloV
   Lemmas.CodecDtlcp.canon_helloVerifyRequest codesD (ready _ (by decide)) rfl hs
 
 end Dtlcp
+
+/-! ## Hello messages (cryptobyte based; one body model shared by both stacks)
+
+Round trip through all seven client and three server extensions, and totality.  Strictness and
+re-encoding of the hellos are judged by the oracle's spec verdict on every generated case
+(`Spec.Codec.shape`, `strictClientHello`, `strictServerHello`) but are not proved here. -/
+
+section Hello
+open Gotlcp.Lemmas.CodecHello
+
+theorem helloCodesT : HelloCodes codesT := ⟨rfl, rfl, rfl, rfl, rfl, rfl, rfl, rfl, rfl, rfl, rfl, rfl, rfl⟩
+theorem helloCodesD : HelloCodes codesD := ⟨rfl, rfl, rfl, rfl, rfl, rfl, rfl, rfl, rfl, rfl, rfl, rfl, rfl⟩
+
+theorem C14_roundtrip_serverHello_tlcp (m : ServerHello) (hw : Spec.Codec.wfServerHello m = true) :
+    ∃ b, encServerHello codesT m = some b ∧ unmarshalServerHello codesT b = .ok m :=
+  rt_serverHello_tlcp codesT helloCodesT m hw
+
+example : Spec.Codec.wfServerHello ⟨(1, 1), List.replicate 32 7, [1, 2, 3], (0xe0, 0x53), 0, true, [0x30, 3, 1, 2, 3],
+    [0x68, 0x32], true⟩ = true := by decide
+
+theorem C14_total_serverHello_tlcp (b : Bytes) : unmarshalServerHello codesT b ≠ .panic :=
+  total_serverHello_tlcp codesT b
+
+theorem C14_roundtrip_clientHello_tlcp (m : ClientHello) (hw : Spec.Codec.wfClientHello .tlcp m = true) :
+    ∃ b, encClientHello codesT m = some b ∧ unmarshalClientHello codesT b = .ok m :=
+  rt_clientHello_tlcp codesT helloCodesT (by decide) (by decide) m hw
+
+example : Spec.Codec.wfClientHello .tlcp ⟨(1, 1), List.replicate 32 9, [], [], [(0xe0, 0x53), (0xe0, 0x13)], [0],
+    [0x61, 0x2e, 0x62], [⟨0, []⟩, ⟨2, [0x30, 0]⟩, ⟨4, List.replicate 32 1⟩], true, [(0, 41), (0, 23)], [(7, 4), (4, 3)],
+    [[0x68, 0x32], [0x68]], [9, 9]⟩ = true := by decide
+
+theorem C14_total_clientHello_tlcp (b : Bytes) : unmarshalClientHello codesT b ≠ .panic :=
+  total_clientHello_tlcp codesT b
+
+theorem C14_roundtrip_serverHello_dtlcp (h : DHdr) (m : ServerHello) (hw : Spec.Codec.wfServerHello m = true)
+    (hh : ∀ body, encServerHelloBody codesD m = some body → Spec.Codec.wfDHdr h body.length = true) :
+    ∃ b body, encServerHelloBody codesD m = some body ∧ Model.CodecDtlcp.encServerHello codesD h m = some b ∧
+      Model.CodecDtlcp.decServerHello codesD b = .ok (⟨h.seq, 0, body.length⟩, m) :=
+  rt_serverHello_dtlcp codesD helloCodesD (ready _ (by decide)) h m hw hh
+
+theorem C14_total_serverHello_dtlcp (b : Bytes) : Model.CodecDtlcp.decServerHello codesD b ≠ .panic :=
+  total_serverHello_dtlcp codesD (ready _ (by decide)) b
+
+theorem C14_roundtrip_clientHello_dtlcp (h : DHdr) (m : ClientHello) (hw : Spec.Codec.wfClientHello .dtlcp m = true)
+    (hh : ∀ body, encClientHelloBody codesD true m = some body → Spec.Codec.wfDHdr h body.length = true) :
+    ∃ b body, encClientHelloBody codesD true m = some body ∧ Model.CodecDtlcp.encClientHello codesD h m = some b ∧
+      Model.CodecDtlcp.decClientHello codesD b = .ok (⟨h.seq, 0, body.length⟩, m) :=
+  rt_clientHello_dtlcp codesD helloCodesD (by decide) (by decide) (ready _ (by decide)) h m hw hh
+
+example : Spec.Codec.wfClientHello .dtlcp ⟨(1, 1), List.replicate 32 9, [], [0xaa, 0xbb], [(0xe0, 0x53)], [0],
+    [], [], false, [(0, 41), (0, 23)], [(7, 4), (4, 3)], [], []⟩ = true := by decide
+
+theorem C14_total_clientHello_dtlcp (b : Bytes) : Model.CodecDtlcp.decClientHello codesD b ≠ .panic :=
+  total_clientHello_dtlcp codesD (ready _ (by decide)) b
+
+end Hello
 
 end Gotlcp.Props.C14
